@@ -4,20 +4,32 @@
 package golang
 
 //@ func (*Service).RunRules
-//@ requires s != nil && s.locker != nil
+//@ requires s != nil && s.locker != nil && s.rules != nil
 //@ requires [unlocked] !prelocked && (forall k [48]byte :: !held[k])
+//@ requires [wellformed] forall j int :: 0 <= j && j < len(rulesData) && rulesData[j] != nil ==> wellformedData(action, rulesData[j])
 //@ modifies held, prelocked, db
 //@ ensures [postlocked] !prelocked
 //@ ensures [released] forall k [48]byte :: !held[k]
-//@ ensures [len] (len(rulesData) == 0 ==> len(result) == 1) && (len(rulesData) > 0 ==> len(result) == len(rulesData))
+//@ ensures [len] (len(rulesData) == 0 ==> len(result) == 1 && result[0] == rules.FAILED) && (len(rulesData) > 0 ==> len(result) == len(rulesData))
+//@ ensures [fresh] fresh(result)
+//@ ensures [verdicts] forall i int :: 0 <= i && i < len(result) ==> result[i] == rules.UNKNOWN || result[i] == rules.APPROVED || result[i] == rules.DENIED || result[i] == rules.FAILED
+//@ ensures [nonnil] forall i int :: 0 <= i && i < len(rulesData) && result[i] == rules.APPROVED ==> rulesData[i] != nil
+//@ ensures [att] action == ruler.ActionSignBeaconAttestation ==> (forall i int :: 0 <= i && i < len(rulesData) && result[i] == rules.APPROVED ==> hastype(rulesData[i].Data, "*rules.SignBeaconAttestationData") && attApproved(rulesData[i].PubKey, unbox(rulesData[i].Data, "*rules.SignBeaconAttestationData")))
+//@ ensures [prop] action == ruler.ActionSignBeaconProposal ==> (forall i int :: 0 <= i && i < len(rulesData) && result[i] == rules.APPROVED ==> hastype(rulesData[i].Data, "*rules.SignBeaconProposalData") && propApproved(rulesData[i].PubKey, unbox(rulesData[i].Data, "*rules.SignBeaconProposalData")))
+//@ ensures [gen] action == ruler.ActionSign ==> (forall i int :: 0 <= i && i < len(rulesData) && result[i] == rules.APPROVED ==> hastype(rulesData[i].Data, "*rules.SignData") && prefix4(unbox(rulesData[i].Data, "*rules.SignData").Domain) != ATT && prefix4(unbox(rulesData[i].Data, "*rules.SignData").Domain) != PROP)
+//@ ensures [distinct] locking(action) ==> (forall i int, j int :: 0 <= i && i < j && j < len(rulesData) && result[i] == rules.APPROVED && result[j] == rules.APPROVED ==> bytes(rulesData[i].PubKey) != bytes(rulesData[j].PubKey))
+//@ ensures [dbframe] forall k Bytes :: (forall i int :: !(0 <= i && i < len(rulesData) && rulesData[i] != nil && ((action == ruler.ActionSignBeaconAttestation && k == attKey(bytes(rulesData[i].PubKey))) || (action == ruler.ActionSignBeaconProposal && k == propKey(bytes(rulesData[i].PubKey)))))) ==> ((k in db) <==> old(k in db)) && db[k] == old(db[k])
 //@ hint-after runRules@1 [heldisdeferred] forall k [48]byte :: deferred()[k] <==> held[k]
 //@ loop #1
 //@ invariant [range] 0 <= _n && _n <= len(rulesData) && len(results) == len(rulesData) && fresh(results)
+//@ invariant [unknown] forall j int :: 0 <= j && j < _n ==> results[j] == rules.UNKNOWN
 //@ loop #2
-//@ invariant [range] 0 <= _n && _n <= len(rulesData)
-//@ invariant [nonnil] forall j int :: 0 <= j && j < _n ==> rulesData[j] != nil
+//@ invariant [range] 0 <= _n && _n <= len(rulesData) && len(results) == len(rulesData) && fresh(results)
+//@ invariant [nonnil] forall j int :: 0 <= j && j < _n ==> rulesData[j] != nil && rulesData[j].Data != nil
+//@ invariant [unknown] forall j int :: 0 <= j && j < len(results) ==> results[j] == rules.UNKNOWN
 //@ loop #3
-//@ invariant [range] 0 <= _n && _n <= len(rulesData) && pubKeyMap != nil && fresh(pubKeyMap)
+//@ invariant [range] 0 <= _n && _n <= len(rulesData) && pubKeyMap != nil && fresh(pubKeyMap) && len(results) == len(rulesData) && fresh(results)
+//@ invariant [unknown] forall j int :: 0 <= j && j < len(results) ==> results[j] == rules.UNKNOWN
 //@ invariant [seen] forall j int :: 0 <= j && j < _n ==> key48(rulesData[j].PubKey) in pubKeyMap
 //@ invariant [onlyseen] forall k [48]byte :: k in pubKeyMap ==> (exists j int :: 0 <= j && j < _n && k == key48(rulesData[j].PubKey))
 //@ invariant [distinct] forall i int, j int :: 0 <= i && i < j && j < _n ==> key48(rulesData[i].PubKey) != key48(rulesData[j].PubKey)
@@ -27,9 +39,96 @@ package golang
 //@ invariant [deferred] forall k [48]byte :: deferred()[k] <==> held[k]
 
 //@ func (*Service).runRules
-//@ requires s != nil
+//@ requires s != nil && s.rules != nil
 //@ requires [noprelock] !prelocked
-//@ requires [locked] (action == ruler.ActionSign || action == ruler.ActionSignBeaconProposal || action == ruler.ActionSignBeaconAttestation) ==> (forall i int :: 0 <= i && i < len(rulesData) ==> held[key48(rulesData[i].PubKey)])
-//@ requires [distinct] (action == ruler.ActionSign || action == ruler.ActionSignBeaconProposal || action == ruler.ActionSignBeaconAttestation) ==> (forall i int, j int :: 0 <= i && i < j && j < len(rulesData) ==> key48(rulesData[i].PubKey) != key48(rulesData[j].PubKey))
+//@ requires [locked] locking(action) ==> (forall i int :: 0 <= i && i < len(rulesData) ==> held[key48(rulesData[i].PubKey)])
+//@ requires [distinct] locking(action) ==> (forall i int, j int :: 0 <= i && i < j && j < len(rulesData) ==> key48(rulesData[i].PubKey) != key48(rulesData[j].PubKey))
+//@ requires [nonnil] len(rulesData) > 0 && (forall j int :: 0 <= j && j < len(rulesData) ==> rulesData[j] != nil)
+//@ requires [wellformed] forall j int :: 0 <= j && j < len(rulesData) ==> wellformedData(action, rulesData[j])
 //@ modifies db
 //@ ensures [len] len(result) == len(rulesData)
+//@ ensures [fresh] fresh(result)
+//@ ensures [verdicts] forall i int :: 0 <= i && i < len(result) ==> result[i] == rules.UNKNOWN || result[i] == rules.APPROVED || result[i] == rules.DENIED || result[i] == rules.FAILED
+//@ ensures [att] action == ruler.ActionSignBeaconAttestation ==> (forall i int :: 0 <= i && i < len(result) && result[i] == rules.APPROVED ==> hastype(rulesData[i].Data, "*rules.SignBeaconAttestationData") && attApproved(rulesData[i].PubKey, unbox(rulesData[i].Data, "*rules.SignBeaconAttestationData")))
+//@ ensures [prop] action == ruler.ActionSignBeaconProposal ==> (forall i int :: 0 <= i && i < len(result) && result[i] == rules.APPROVED ==> hastype(rulesData[i].Data, "*rules.SignBeaconProposalData") && propApproved(rulesData[i].PubKey, unbox(rulesData[i].Data, "*rules.SignBeaconProposalData")))
+//@ ensures [gen] action == ruler.ActionSign ==> (forall i int :: 0 <= i && i < len(result) && result[i] == rules.APPROVED ==> hastype(rulesData[i].Data, "*rules.SignData") && prefix4(unbox(rulesData[i].Data, "*rules.SignData").Domain) != ATT && prefix4(unbox(rulesData[i].Data, "*rules.SignData").Domain) != PROP)
+//@ ensures [dbframe] forall k Bytes :: (forall i int :: !(0 <= i && i < len(rulesData) && ((action == ruler.ActionSignBeaconAttestation && k == attKey(bytes(rulesData[i].PubKey))) || (action == ruler.ActionSignBeaconProposal && k == propKey(bytes(rulesData[i].PubKey)))))) ==> ((k in db) <==> old(k in db)) && db[k] == old(db[k])
+//@ hint-after before:runRulesForMultipleBeaconAttestations@1 [bytesdistinct] forall j int, k int :: 0 <= j && j < k && k < len(rulesData) ==> bytes(rulesData[j].PubKey) != bytes(rulesData[k].PubKey)
+//@ hint-after before:Scatter@1 [bytesdistinct] locking(action) ==> (forall j int, k int :: 0 <= j && j < k && k < len(rulesData) ==> bytes(rulesData[j].PubKey) != bytes(rulesData[k].PubKey))
+//@ hint-after before:Scatter@1 [inj-att] forall a Bytes, b Bytes :: bnorm(a) && bnorm(b) && attKey(a) == attKey(b) ==> a == b
+//@ hint-after before:Scatter@1 [inj-prop] forall a Bytes, b Bytes :: bnorm(a) && bnorm(b) && propKey(a) == propKey(b) ==> a == b
+//@ loop #1
+//@ invariant [range] 0 <= _n && _n <= len(rulesData) && len(results) == len(rulesData) && fresh(results)
+//@ invariant [unknown] forall j int :: 0 <= j && j < _n ==> results[j] == rules.UNKNOWN
+
+// ---- the dispatch under the locks ----
+
+//@ spec attApproved(pk []byte, d *rules.SignBeaconAttestationData) bool = old(wmAttOk(bytes(pk))) && attOK(old(wmAttS(bytes(pk))), old(wmAttT(bytes(pk))), d.Source.Epoch, d.Target.Epoch, prefix4(d.Domain)) && wmAttOk(bytes(pk)) && wmAttS(bytes(pk)) == d.Source.Epoch && wmAttT(bytes(pk)) == d.Target.Epoch
+//@ spec propApproved(pk []byte, d *rules.SignBeaconProposalData) bool = old(wmPropOk(bytes(pk))) && propOK(old(wmPropL(bytes(pk))), d.Slot, prefix4(d.Domain)) && wmPropOk(bytes(pk)) && wmPropL(bytes(pk)) == d.Slot
+
+//@ func (*Service).assembleMetadata
+//@ ensures [ok] result1 == nil ==> result0 != nil && fresh(result0) && result0.Account == accountName && result0.PubKey == pubKey && credentials != nil && result0.Client == credentials.Client && result0.IP == credentials.IP
+//@ ensures [err] result1 != nil ==> result0 == nil
+
+//@ func (*Service).runRules$1
+//@ worker i offset entries
+//@ requires s != nil && s.rules != nil
+//@ requires [extent] 0 <= offset && entries >= 1 && offset + entries <= len(rulesData)
+//@ requires [lens] len(results) == len(rulesData)
+//@ requires [wellformed] forall j int :: offset <= j && j < offset + entries && rulesData[j] != nil ==> wellformedData(action, rulesData[j])
+//@ requires [distinct] locking(action) ==> (forall j int, k int :: offset <= j && j < k && k < offset + entries && rulesData[j] != nil && rulesData[k] != nil ==> bytes(rulesData[j].PubKey) != bytes(rulesData[k].PubKey))
+//@ modifies results[offset:offset+entries], each(i, offset, offset+entries, action == ruler.ActionSignBeaconAttestation && rulesData[i] != nil, db[attKey(bytes(rulesData[i].PubKey))]), each(i, offset, offset+entries, action == ruler.ActionSignBeaconProposal && rulesData[i] != nil, db[propKey(bytes(rulesData[i].PubKey))])
+//@ ensures-each [verdict] rulesData[i] != nil ==> results[i] == rules.APPROVED || results[i] == rules.DENIED || results[i] == rules.FAILED
+//@ ensures-each [skipped] rulesData[i] == nil ==> results[i] == old(results[i])
+//@ ensures-each [att] action == ruler.ActionSignBeaconAttestation && rulesData[i] != nil && results[i] == rules.APPROVED ==> hastype(rulesData[i].Data, "*rules.SignBeaconAttestationData") && attApproved(rulesData[i].PubKey, unbox(rulesData[i].Data, "*rules.SignBeaconAttestationData"))
+//@ ensures-each [prop] action == ruler.ActionSignBeaconProposal && rulesData[i] != nil && results[i] == rules.APPROVED ==> hastype(rulesData[i].Data, "*rules.SignBeaconProposalData") && propApproved(rulesData[i].PubKey, unbox(rulesData[i].Data, "*rules.SignBeaconProposalData"))
+//@ ensures-each [gen] action == ruler.ActionSign && rulesData[i] != nil && results[i] == rules.APPROVED ==> hastype(rulesData[i].Data, "*rules.SignData") && prefix4(unbox(rulesData[i].Data, "*rules.SignData").Domain) != ATT && prefix4(unbox(rulesData[i].Data, "*rules.SignData").Domain) != PROP
+//@ loop #1
+//@ invariant [range] offset <= i && i <= offset + entries
+//@ invariant [verdict] forall j int :: offset <= j && j < i && rulesData[j] != nil ==> results[j] == rules.APPROVED || results[j] == rules.DENIED || results[j] == rules.FAILED
+//@ invariant [att-type] forall j int :: offset <= j && j < i && action == ruler.ActionSignBeaconAttestation && rulesData[j] != nil && results[j] == rules.APPROVED ==> hastype(rulesData[j].Data, "*rules.SignBeaconAttestationData")
+//@ invariant [att-oldok] forall j int :: offset <= j && j < i && action == ruler.ActionSignBeaconAttestation && rulesData[j] != nil && results[j] == rules.APPROVED ==> old(wmAttOk(bytes(rulesData[j].PubKey)))
+//@ invariant [att-sound] forall j int :: offset <= j && j < i && action == ruler.ActionSignBeaconAttestation && rulesData[j] != nil && results[j] == rules.APPROVED ==> attOK(old(wmAttS(bytes(rulesData[j].PubKey))), old(wmAttT(bytes(rulesData[j].PubKey))), unbox(rulesData[j].Data, "*rules.SignBeaconAttestationData").Source.Epoch, unbox(rulesData[j].Data, "*rules.SignBeaconAttestationData").Target.Epoch, prefix4(unbox(rulesData[j].Data, "*rules.SignBeaconAttestationData").Domain))
+//@ invariant [att-rec] forall j int :: offset <= j && j < i && action == ruler.ActionSignBeaconAttestation && rulesData[j] != nil && results[j] == rules.APPROVED ==> wmAttOk(bytes(rulesData[j].PubKey)) && wmAttS(bytes(rulesData[j].PubKey)) == unbox(rulesData[j].Data, "*rules.SignBeaconAttestationData").Source.Epoch && wmAttT(bytes(rulesData[j].PubKey)) == unbox(rulesData[j].Data, "*rules.SignBeaconAttestationData").Target.Epoch
+//@ invariant [prop] forall j int :: offset <= j && j < i && action == ruler.ActionSignBeaconProposal && rulesData[j] != nil && results[j] == rules.APPROVED ==> hastype(rulesData[j].Data, "*rules.SignBeaconProposalData") && propApproved(rulesData[j].PubKey, unbox(rulesData[j].Data, "*rules.SignBeaconProposalData"))
+//@ invariant [gen] forall j int :: offset <= j && j < i && action == ruler.ActionSign && rulesData[j] != nil && results[j] == rules.APPROVED ==> hastype(rulesData[j].Data, "*rules.SignData") && prefix4(unbox(rulesData[j].Data, "*rules.SignData").Domain) != ATT && prefix4(unbox(rulesData[j].Data, "*rules.SignData").Domain) != PROP
+//@ invariant [frame] forall j int :: !(offset <= j && j < i && rulesData[j] != nil) ==> results[j] == old(results[j])
+//@ invariant [dbframe] forall k Bytes :: (forall j int :: !(offset <= j && j < i && rulesData[j] != nil && ((action == ruler.ActionSignBeaconAttestation && k == attKey(bytes(rulesData[j].PubKey))) || (action == ruler.ActionSignBeaconProposal && k == propKey(bytes(rulesData[j].PubKey)))))) ==> ((k in db) <==> old(k in db)) && db[k] == old(db[k])
+//@ hint [inj-att] forall a Bytes, b Bytes :: bnorm(a) && bnorm(b) && attKey(a) == attKey(b) ==> a == b
+//@ hint [inj-prop] forall a Bytes, b Bytes :: bnorm(a) && bnorm(b) && propKey(a) == propKey(b) ==> a == b
+
+// fast path for several attestations: worker prepares metadata and data per position, rules decide the batch
+//@ func (*Service).runRulesForMultipleBeaconAttestations$1
+//@ worker i offset entries
+//@ requires s != nil
+//@ requires [extent] 0 <= offset && entries >= 1 && offset + entries <= len(rulesData)
+//@ requires [lens] len(results) == len(rulesData) && len(metadatas) == len(rulesData) && len(reqData) == len(rulesData)
+//@ requires [nonnil] forall j int :: offset <= j && j < offset + entries ==> rulesData[j] != nil
+//@ requires [blank] forall j int :: offset <= j && j < offset + entries ==> metadatas[j] == nil && reqData[j] == nil && results[j] == rules.UNKNOWN
+//@ modifies results[offset:offset+entries], metadatas[offset:offset+entries], reqData[offset:offset+entries]
+//@ ensures-each [verdict] results[i] == rules.UNKNOWN || results[i] == rules.FAILED
+//@ ensures-each [meta] metadatas[i] != nil ==> metadatas[i].PubKey == rulesData[i].PubKey
+//@ ensures-each [data] reqData[i] != nil ==> hastype(rulesData[i].Data, "*rules.SignBeaconAttestationData") && reqData[i] == unbox(rulesData[i].Data, "*rules.SignBeaconAttestationData")
+//@ loop #1
+//@ invariant [range] offset <= i && i <= offset + entries
+//@ invariant [verdict] forall j int :: offset <= j && j < offset + entries ==> results[j] == rules.UNKNOWN || results[j] == rules.FAILED
+//@ invariant [meta] forall j int :: offset <= j && j < offset + entries && metadatas[j] != nil ==> metadatas[j].PubKey == rulesData[j].PubKey
+//@ invariant [data] forall j int :: offset <= j && j < offset + entries && reqData[j] != nil ==> hastype(rulesData[j].Data, "*rules.SignBeaconAttestationData") && reqData[j] == unbox(rulesData[j].Data, "*rules.SignBeaconAttestationData")
+//@ invariant [frame] forall j int :: !(offset <= j && j < offset + entries) ==> results[j] == old(results[j]) && metadatas[j] == old(metadatas[j]) && reqData[j] == old(reqData[j])
+
+//@ func (*Service).runRulesForMultipleBeaconAttestations
+//@ requires s != nil && s.rules != nil
+//@ requires [nonnil] forall j int :: 0 <= j && j < len(rulesData) ==> rulesData[j] != nil
+//@ requires [distinct] forall j int, k int :: 0 <= j && j < k && k < len(rulesData) ==> bytes(rulesData[j].PubKey) != bytes(rulesData[k].PubKey)
+//@ modifies db
+//@ ensures [len] len(result) == len(rulesData)
+//@ ensures [fresh] fresh(result)
+//@ ensures [verdicts] forall i int :: 0 <= i && i < len(result) ==> result[i] == rules.UNKNOWN || result[i] == rules.APPROVED || result[i] == rules.DENIED || result[i] == rules.FAILED
+//@ ensures [att] forall i int :: 0 <= i && i < len(result) && result[i] == rules.APPROVED ==> hastype(rulesData[i].Data, "*rules.SignBeaconAttestationData") && attApproved(rulesData[i].PubKey, unbox(rulesData[i].Data, "*rules.SignBeaconAttestationData"))
+//@ ensures [dbframe] forall k Bytes :: (forall i int :: 0 <= i && i < len(rulesData) ==> k != attKey(bytes(rulesData[i].PubKey))) ==> ((k in db) <==> old(k in db)) && db[k] == old(db[k])
+//@ loop #1
+//@ invariant [range] 0 <= _n && _n <= len(rulesData) && len(results) == len(rulesData) && fresh(results)
+//@ invariant [unknown] forall j int :: 0 <= j && j < _n ==> results[j] == rules.UNKNOWN
+//@ loop #2
+//@ invariant [range] 0 <= _n && _n <= len(results)
+//@ invariant [nofail] forall j int :: 0 <= j && j < _n ==> results[j] != rules.FAILED
